@@ -5,6 +5,7 @@ TABLE: by_name insertion only through a vacant entry; DOM: exit propagation befo
 registry removal; PROV of the notices; single consumer loop; gen_server reply;
 link/monitor bookkeeping symmetry.
 """
+from ..families import describe
 from ..core import callee_of, callee_names, is_call_to, unwrap, receiver_root, root_fields, fold
 
 REG = 'edp_node::registry::ProcessRegistry'
@@ -270,6 +271,27 @@ def run(ctx):
                 ctx.bad('C18.5-gen-reply', 'handle_gen_call', 'reply not addressed to the caller / not tagged with the caller\'s reference (to_caller=%s tuple=%s)' % (to_caller, tup_ok),
                         ctx.where(Bg, sends[0][0]), key='PROV:gen_server:reply')
 
+    # who the caller is: the From tuple of the request itself
+    Bh = None
+    for q in ctx.F.bodies:
+        if 'GenServerProcess' in q and q.endswith('handle_message::{closure#0}'):
+            Bh = P.B(q)
+    if ctx.anchor(Bh is not None, 'GenServerProcess::handle_message'):
+        calls = [(bb, t) for bb, t in Bh.calls() if any(n.endswith('::handle_gen_call') for n in callee_names(t)) and len(t['args']) >= 4]
+        if ctx.anchor(len(calls) >= 1, 'handle_message -> handle_gen_call'):
+            from ..ranges import canon as _canon
+            for bb, t in calls:
+                c_pid, c_ref = _canon(Bh, t['args'][1]), _canon(Bh, t['args'][2])
+
+                def elem_of_from_tuple(c, variant):
+                    return isinstance(c, tuple) and c and c[0] == 'place' and isinstance(c[1], tuple) and c[1][0] == 'call' and str(c[1][1]).endswith('::index') and ('as:' + variant) in c[2]
+                if elem_of_from_tuple(c_pid, 'Pid') and elem_of_from_tuple(c_ref, 'Reference'):
+                    ctx.ok('C18.5-gen-reply', 'handle_message:caller', 'caller pid and reference are the two elements of the request\'s own From tuple', ctx.where(Bh, bb))
+                else:
+                    ctx.bad('C18.5-gen-reply', 'handle_message:caller', 'the pid the reply goes to (%s) / the reference (%s) are not taken from the From tuple {Pid, Ref} of the $gen_call request: '
+                            'a call relayed by another process is answered to the relay, and the real caller waits for ever' % (describe(Bh, c_pid), describe(Bh, c_ref)), ctx.where(Bh, bb),
+                            key='PROV:gen_server:handle_message:caller')
+
     # ---------------- clause 6: bookkeeping symmetry in Node ----------------------------------------------------
     ctx.rule('C18.6-bookkeeping', 'local link/unlink add/remove the peer on both handles with swapped arguments; monitor stores (from, ref) on the target and returns that ref; demonitor removes by it', floor=4)
     for op, meth in (('link', 'add_link'), ('unlink', 'remove_link')):
@@ -310,12 +332,14 @@ def run(ctx):
             r = unwrap(Bm.origin(t['args'][2]))[0]
             ref_ok = r[0] == 'call' and r[2] == mrs[0][0]
             # returned Ok(reference) on the local branch derives from the same make_reference
-            ret_ok = False
+            # EVERY Ok(..) of monitor() hands back the reference made in this call: an early return with a reference that
+            # already existed means no new entry was stored, i.e. two monitors share one entry (one demonitor removes both)
+            rets = []
             for bb, j, st in Bm.stmts():
-                if st['k'] == '=' and st['pl']['l'] == 0 and st['rv']['k'] == 'agg' and st['rv'].get('var') == 'Ok':
+                if st['k'] == '=' and st['pl']['l'] == 0 and not st['pl'].get('p') and st['rv']['k'] == 'agg' and st['rv'].get('var') == 'Ok':
                     ro = unwrap(Bm.origin(st['rv']['ops'][0]))[0]
-                    if ro[0] == 'call' and ro[2] == mrs[0][0]:
-                        ret_ok = True
+                    rets.append(ro[0] == 'call' and ro[2] == mrs[0][0])
+            ret_ok = bool(rets) and all(rets)
             if who == 'to' and watcher == 'from' and ref_ok and ret_ok:
                 ctx.ok('C18.6-bookkeeping', 'monitor', 'add_monitor(from, ref) on get(to); the same fresh reference is returned', ctx.where(Bm))
             else:
